@@ -372,6 +372,15 @@ def store_subscript(self, t, v, st, node):
                         new.q = Q.store_elem2(self, bq, rd[1], cd[1], nv.q, node)
                     elif full_r and cd is not None and cd[0] == 'int':
                         new.q = Q.store_column(self, bq, cd[1], nv.q, node)
+                    elif rd is not None and rd[0] == 'slice' and rd[2] == 1 and rd[1] is not None and cd is not None and cd[0] == 'int' \
+                            and (bq == 'any' or (Q.is_cols(bq) and not any(c_ == cd[1] for c_, _a, _b in bq[1])
+                                                 and not any(j_ == cd[1] for (_i, j_) in bq[2]))):
+                        # M[lo:hi, col] = vec into a column of a fresh (zero) buffer not written before: the rows outside lo:hi keep
+                        # their zeros, which carry any charge -- the column is typed by the vector, shifted to start at row lo
+                        vq_ = nv.q
+                        if Q.is_lin(vq_):
+                            vq_ = Q.lin(vq_[1], vq_[2] - rd[1].scale(vq_[1]))
+                        new.q = Q.store_column(self, bq, cd[1], vq_, node)
             new.view_of = base.view_of
             new.mirror = nv.mirror if (b0.zero or b0.mirror == nv.mirror) else False
             if nv.zero:
@@ -542,20 +551,45 @@ def s_If(self, s, st, frame):
     raised = False
     sta, stb = st.fork(), st.fork()
     refine = _refine_equal(self, s.test, sta, stb)
+    # `if k == lo` on a loop symbol with range [lo, hi): in the other arm the symbol ranges over [lo+1, hi) (same for hi-1)
+    tight = None
+    if refine is not None:
+        sym_r = list(refine[0])[0]
+        if sym_r in Aff.BOUNDS:
+            lo_r, hi_r = Aff.BOUNDS[sym_r]
+            v_r = refine[0][sym_r]
+            if lo_r is not None and v_r == lo_r:
+                tight = (sym_r, (lo_r, hi_r), (lo_r + 1, hi_r))
+            elif hi_r is not None and v_r == hi_r - 1:
+                tight = (sym_r, (lo_r, hi_r), (lo_r, hi_r - 1))
+
+    def arm(block, state, general):
+        if tight is not None and general:
+            Aff.BOUNDS[tight[0]] = tight[2]
+            try:
+                return self.exec_block(block, state, frame)
+            finally:
+                Aff.BOUNDS[tight[0]] = tight[1]
+        return self.exec_block(block, state, frame)
     try:
         frame.last_end = None
         frame.last_break_hit = False
-        a = self.exec_block(s.body, sta, frame)
+        a = arm(s.body, sta, refine is not None and not refine[1])
         if a is None and frame.last_end in ('break', 'continue', 'return'):
             abrupt = True
         if a is None and frame.last_end == 'raise':
             raised = True
         frame.last_end = None
-        b = self.exec_block(s.orelse, stb, frame)
+        b = arm(s.orelse, stb, refine is not None and refine[1])
         if b is None and frame.last_end in ('break', 'continue', 'return'):
             abrupt = True
         if b is None and frame.last_end == 'raise':
             raised = True
+        if raised:
+            arm = 'body' if (a is None and b is not None) else ('orelse' if (b is None and a is not None) else None)
+            if arm is not None:
+                cm = {id(x_): self.cmp_affs[id(x_)] for x_ in ast.walk(s.test) if id(x_) in self.cmp_affs}
+                self.events.append(('guard-raise', s, arm, cm, self.cur.qname if self.cur else ''))
     finally:
         # an arm that leaves the block (break/continue/return) makes everything that follows in the enclosing
         # loop / function control dependent on the condition; a raise does not (exception-insensitive) -- except
@@ -733,6 +767,14 @@ def iter_elem(self, it, node, loopnode=None):
             return it, None
         r = it.copy(shape=tuple(it.shape[1:]))
         r.ex = None
+        if it.fgrid is not None and loopnode is not None and len(it.shape) == 1 and it.shape[0] is not None:
+            # element i of a frequency grid: the loop gets a position symbol like a range loop
+            key = (self.cur.qname if self.cur else '', getattr(loopnode, 'lineno', 0), getattr(loopnode, 'col_offset', 0))
+            sym = self.loopsyms.setdefault(key, 'pos@%s:%d' % ((self.cur.name if self.cur else ''), key[1]))
+            Aff.SYM_MIN[sym] = 0
+            Aff.BOUNDS[sym] = (Aff(0), it.shape[0])
+            import sympy as _sp
+            r.fsf = _sp.cancel(it.fgrid[0] + it.fgrid[1] * _sp.Symbol(sym, positive=True))
         return r, it.shape[0]
     if isinstance(it, Tup):
         e = None
